@@ -6,12 +6,11 @@ incompatible candidates, unknown-labelled estimates, FP-labelled ground truth) a
 an independent two-stage greedy plus the blocking-pair predicate, both computed in Python from the
 matching values / label policy read through the public API."""
 from harness.lib.core import Prop
-from harness.props.C01 import MatchCorr
+from harness.props.C01 import ManagerCorr, MatchCorr
 
 
-def expected_label_ok(case, e, g):
-    """Documented label policy, from the case description alone."""
-    el, gl = case["est"][e]["label"], case["gt"][g]["label"]
+def expected_label_ok(case, el, gl):
+    """Documented label policy on label names (el: estimate, gl: ground truth)."""
     if gl == "FP" or case["policy"] == "ALLOW_ANY":
         return True
     if case["policy"] == "ALLOW_UNKNOWN":
@@ -36,19 +35,24 @@ def independent_greedy(n, m, live, ok, val, maximize):
 
 
 def oracle_c02(case, obs):
+    if "__harness_exception__" in obs:
+        return f"the implementation could not be observed: {obs['__harness_exception__']}"
     if "error" in obs:
         return f"get_object_results raised {obs['error']}"
     if obs["foreign"]:
         return "a result refers to an object that is not in the input lists"
-    n, m = len(case["est"]), len(case["gt"])
+    f = obs["facts"]
+    n, m = len(f["est_frame"]), len(f["gt_frame"])
+    if "via" not in case and (f["est_label"] != [o["label"] for o in case["est"]] or f["gt_label"] != [o["label"] for o in case["gt"]]):
+        return "objects do not carry the labels they were built with"
     maximize = case["mode"].startswith("IOU")          # documented: distances minimised, IoU maximised
-    live, ok, val = obs["live"], obs["ok"], obs["facts"]["value"]
+    live, ok, val = obs["live"], obs["ok"], f["value"]
     # label policy truth table
     for e in range(n):
         for g in range(m):
-            if bool(ok[e][g]) != expected_label_ok(case, e, g):
-                return (f"is_matchable({case['policy']}) says {ok[e][g]} for estimate label {case['est'][e]['label']} / "
-                        f"ground truth label {case['gt'][g]['label']}")
+            if bool(ok[e][g]) != expected_label_ok(case, f["est_label"][e], f["gt_label"][g]):
+                return (f"is_matchable({case['policy']}) says {ok[e][g]} for estimate label {f['est_label'][e]} / "
+                        f"ground truth label {f['gt_label'][g]}")
     pairs = [(e, g) for e, g in obs["pairs"] if g is not None]
     pe, pg = {}, {}
     for e, g in pairs:
@@ -89,6 +93,22 @@ def oracle_c02(case, obs):
     return None
 
 
+def _contested(obs):
+    f, live = obs["facts"], obs["live"]
+    return any(sum(1 for i in range(len(f["est_frame"])) if live[i][j]) >= 2 for j in range(len(f["gt_frame"])))
+
+
+class GreedyManagerCorr(ManagerCorr):
+    """The manager passes its configured label policy / radii on to the matcher."""
+    name = "manager_add_frame_result_greedy"
+
+    def oracle(self, case, obs):
+        return oracle_c02(case, obs)
+
+    def nontrivial(self, case, obs):
+        return "error" not in obs and _contested(obs) and any(g is not None for _, g in obs["pairs"])
+
+
 class GreedyCorr(MatchCorr):
     name = "get_object_results_greedy"
     flavor = "contested"
@@ -99,9 +119,7 @@ class GreedyCorr(MatchCorr):
     def nontrivial(self, case, obs):
         if "error" in obs:
             return False
-        live = obs["live"]
-        contested = any(sum(1 for i in range(len(case["est"])) if live[i][j]) >= 2 for j in range(len(case["gt"])))
-        return contested and any(g is not None for _, g in obs["pairs"])
+        return _contested(obs) and any(g is not None for _, g in obs["pairs"])
 
     def distribution(self, cases, obs):
         d = super().distribution(cases, obs)
@@ -109,7 +127,8 @@ class GreedyCorr(MatchCorr):
         for c, o in zip(cases, obs):
             if "error" in o:
                 continue
-            vals = [o["facts"]["value"][e][g] for e in range(len(c["est"])) for g in range(len(c["gt"])) if o["live"][e][g]]
+            f = o["facts"]
+            vals = [f["value"][e][g] for e in range(len(f["est_frame"])) for g in range(len(f["gt_frame"])) if o["live"][e][g]]
             if vals and len(set(vals)) == len(vals):
                 no_tie += 1
             stage2 += sum(1 for e, g in o["pairs"] if g is not None and not o["ok"][e][g])
@@ -139,15 +158,15 @@ class C02(Prop):
                   "matching classes. With ties the result depends on numpy's first-occurrence rule, which the model reproduces and the "
                   "correspondence checks; the theorems about blocking pairs hold with ties as well.")
     rule = ("as C01 with the 'contested' flavour (2-3 labels, tight clusters) for ~70 % of the scenes; non-trivial = some ground truth has >= 2 "
-            "matchable candidates and at least one pair is formed")
+            "matchable candidates and at least one pair is formed; plus the manager path of C01 (configured policy / radii reach the matcher)")
     assumptions = ["objects carry geometry (3D boxes or 2D ROIs); the ROI-less 2D dispatch is C11",
                    "matching values are finite floats"]
     not_proved = ["optimality of the assignment in any global sense (the code implements a greedy, not an optimal assignment)",
                   "the geometric meaning of the matching values (C06)"]
 
     def correspondences(self):
-        return [GreedyCorr()]
+        return [GreedyCorr(), GreedyManagerCorr()]
 
 
-READY = False
+READY = True
 PROP = C02()
